@@ -17,21 +17,22 @@ import (
 
 // Plan selects bounds of one check.
 type Plan struct {
-	Property    string
-	Sides       []string
-	FullDepth   int // levels explored with the full alphabet
-	Depth       int // total depth (levels beyond FullDepth use the reduced alphabet)
-	Repeat      int
-	RepeatDepth int  // levels 1..RepeatDepth run the repeat family; deeper levels send every request once
-	ExpandAll   bool // false: beyond level 1 only the first state found per (state class, route, action) is expanded
-	Budget      time.Duration
-	C17         bool
-	Chunk       int
-	MaxReport   int
-	OnlyOracle  func(oracle string) bool // which oracles count for this property (others are recorded as foreign)
-	Alphabet    func(side string, reduced bool) []Desc
-	Classes     func(side string) []string
-	Workers     int
+	Property       string
+	Sides          []string
+	FullDepth      int // levels explored with the full alphabet
+	Depth          int // total depth (levels beyond FullDepth use the reduced alphabet)
+	Repeat         int
+	RepeatDepth    int  // levels 1..RepeatDepth run the repeat family; deeper levels send every request once
+	ExpandAll      bool // false: beyond level 1 only the first state found per (state class, route, action) is expanded
+	ExpandAllDepth int  // states found at levels <= ExpandAllDepth are all expanded; deeper levels: per (state, route, action) only the state reached by the best-formed request
+	Budget         time.Duration
+	C17            bool
+	Chunk          int
+	MaxReport      int
+	OnlyOracle     func(oracle string) bool // which oracles count for this property (others are recorded as foreign)
+	Alphabet       func(side string, reduced bool) []Desc
+	Classes        func(side string) []string
+	Workers        int
 }
 
 type stateNode struct {
@@ -66,6 +67,7 @@ type Coordinator struct {
 	mu         sync.Mutex
 	unitSeq    int
 	skipRepeat map[string]bool
+	knownHeld  map[string]bool
 	harnessErr string
 
 	// counters
@@ -86,6 +88,8 @@ type Coordinator struct {
 	repSeen                                                                                                              map[string]bool
 	notExpanded                                                                                                          int
 	transientWrites                                                                                                      int
+	keyRechecks                                                                                                          int
+	broken                                                                                                               map[string]bool
 	exhaustive                                                                                                           bool
 	depthCompleted                                                                                                       int
 	detOK                                                                                                                int
@@ -104,8 +108,8 @@ func NewCoordinator(p *Plan) *Coordinator {
 	if p.OnlyOracle == nil {
 		p.OnlyOracle = func(o string) bool { return !strings.HasPrefix(o, "c17rest") }
 	}
-	c := &Coordinator{plan: p, skipRepeat: map[string]bool{}, perClass: map[string]int{}, status: map[string]map[int]int{"R": {}, "C": {}}, obs: map[string]int{}, foreign: map[string]int{},
-		expectCount: map[string]int{}, bodyClasses: map[string]int{}, matrix: map[string]map[string]int{}, seen: map[string]bool{}, repSeen: map[string]bool{}, viol: map[string]*found{}, exhaustive: true, depthCompleted: -1}
+	c := &Coordinator{plan: p, skipRepeat: map[string]bool{}, knownHeld: map[string]bool{}, perClass: map[string]int{}, status: map[string]map[int]int{"R": {}, "C": {}}, obs: map[string]int{}, foreign: map[string]int{},
+		expectCount: map[string]int{}, bodyClasses: map[string]int{}, matrix: map[string]map[string]int{}, seen: map[string]bool{}, repSeen: map[string]bool{}, broken: map[string]bool{}, viol: map[string]*found{}, exhaustive: true, depthCompleted: -1}
 	c.scratch = filepath.Join(os.TempDir(), fmt.Sprintf("verif-ee-%d", os.Getpid()))
 	os.RemoveAll(c.scratch)
 	os.MkdirAll(c.scratch, 0755)
@@ -175,6 +179,10 @@ func (c *Coordinator) runUnit(j *unitJob) *unitOut {
 			j.u.SkipRepeat = append(j.u.SkipRepeat, s)
 		}
 		sort.Strings(j.u.SkipRepeat)
+		for s := range c.knownHeld {
+			j.u.KnownHeld = append(j.u.KnownHeld, s)
+		}
+		sort.Strings(j.u.KnownHeld)
 	}
 	c.mu.Unlock()
 	defer os.Remove(j.u.Journal)
@@ -266,6 +274,9 @@ func (c *Coordinator) runBatch(st *stateNode, batch []string, fresh bool) ([]*Re
 		if time.Now().After(c.deadline) {
 			return res, baseKey // budget: the remaining requests stay nil
 		}
+		if c.isBroken(st) {
+			return res, baseKey // the state violates on its own (probe set): it is not explored
+		}
 		j := &unitJob{u: Unit{Side: st.side, Class: st.class, Prefix: st.prefix, PrefixKey: st.key, Repeat: rep, C17: c.plan.C17, Fresh: fresh}, batch: batch[off:]}
 		out := c.runUnit(j)
 		if out.err != "" {
@@ -274,6 +285,11 @@ func (c *Coordinator) runBatch(st *stateNode, batch []string, fresh bool) ([]*Re
 		}
 		if out.baseKey != "" {
 			baseKey = out.baseKey
+			if st.key != "" {
+				c.mu.Lock()
+				c.keyRechecks++ // the worker compared the key of the state it rebuilt with the one recorded at exploration
+				c.mu.Unlock()
+			}
 		}
 		c.mu.Lock()
 		for k, v := range out.cnt {
@@ -295,10 +311,20 @@ func (c *Coordinator) runBatch(st *stateNode, batch []string, fresh bool) ([]*Re
 		c.mu.Unlock()
 		n := 0
 		for _, r := range out.results {
+			if r.Req != nil && strings.HasPrefix(r.Req.Method, "(probe set") {
+				c.mu.Lock()
+				c.broken[stateID(st)] = true
+				c.mu.Unlock()
+			}
 			for _, v := range r.Viol {
 				if v.Oracle == "blocked" || v.Oracle == "probe-blocked" {
 					c.mu.Lock()
 					c.skipRepeat[sigStem(mustDesc(r.Desc))] = true
+					c.mu.Unlock()
+				}
+				if v.Oracle == "lock-held" {
+					c.mu.Lock()
+					c.knownHeld[strings.Split(v.Signature, ":rep")[0]] = true
 					c.mu.Unlock()
 				}
 			}
@@ -340,6 +366,16 @@ func (c *Coordinator) runBatch(st *stateNode, batch []string, fresh bool) ([]*Re
 		off += n
 	}
 	return res, baseKey
+}
+
+func stateID(st *stateNode) string {
+	return st.side + "/" + st.class + "|" + strings.Join(st.prefix, ",")
+}
+
+func (c *Coordinator) isBroken(st *stateNode) bool {
+	c.mu.Lock()
+	defer c.mu.Unlock()
+	return c.broken[stateID(st)]
 }
 
 func vkey(v kernel.Violation) string { return v.Oracle + "|" + v.Signature }
@@ -459,10 +495,18 @@ func (c *Coordinator) explore(frontier []*stateNode, alpha map[string][]string, 
 	wg.Wait()
 	executed := 0
 	newStates := 0
+	type repCand struct {
+		node *stateNode
+		rank int
+	}
+	reps := map[string]repCand{}
+	var repOrder []string
 	for _, t := range tasks {
 		for _, r := range t.res {
 			if r == nil {
-				complete = false
+				if !c.isBroken(t.st) {
+					complete = false
+				}
 				continue
 			}
 			executed++
@@ -476,22 +520,33 @@ func (c *Coordinator) explore(frontier []*stateNode, alpha map[string][]string, 
 			c.seen[r.Key] = true
 			newStates++
 			np := append(append([]string{}, t.st.prefix...), r.Desc)
-			if !c.plan.ExpandAll {
+			node := &stateNode{side: t.st.side, class: t.st.class, prefix: np, key: r.Key, depth: t.st.depth + 1}
+			if !c.plan.ExpandAll && level > c.plan.ExpandAllDepth {
+				// representatives: per (state, route, action) only the state reached by the best-formed request is expanded
 				rk := t.st.side + "/" + t.st.class + "|" + strings.Join(t.st.prefix, ",") + "|" + sigStem(mustDesc(r.Desc))
-				if c.repSeen[rk] {
+				rank := bodyRank(mustDesc(r.Desc))
+				if old, ok := reps[rk]; ok {
 					c.notExpanded++
-					continue
+					if rank < old.rank {
+						reps[rk] = repCand{node, rank}
+					}
+				} else {
+					reps[rk] = repCand{node, rank}
+					repOrder = append(repOrder, rk)
 				}
-				c.repSeen[rk] = true
+			} else {
+				next = append(next, node)
 			}
-			next = append(next, &stateNode{side: t.st.side, class: t.st.class, prefix: np, key: r.Key, depth: t.st.depth + 1})
 			if len(c.samples) < 10 && (len(np) >= 2 || len(c.samples) < 4) {
 				c.samples = append(c.samples, c.sampleOf(t.st, r))
 			}
 		}
-		if t.res == nil {
+		if t.res == nil && !c.isBroken(t.st) {
 			complete = false
 		}
+	}
+	for _, rk := range repOrder {
+		next = append(next, reps[rk].node)
 	}
 	c.states += newStates
 	c.perLevel = append(c.perLevel, newStates)
@@ -690,6 +745,32 @@ func (c *Coordinator) repeatFor(level int) int {
 	return c.plan.Repeat
 }
 
+// bodyRank orders requests from best-formed to worst (representative choice in the quick tier).
+func bodyRank(d Desc) int {
+	r := 0
+	switch {
+	case d.Body == "valid":
+		r = 0
+	case d.Body == "unk":
+		r = 2
+	case strings.HasPrefix(d.Body, "prot.") && !strings.Contains(d.Body, ".t"):
+		r = 4
+	case strings.HasPrefix(d.Body, "bad.") && !strings.Contains(d.Body, ".t"):
+		r = 6
+	case d.Body == "none":
+		r = 8
+	default:
+		r = 10
+	}
+	if d.CT != "j" {
+		r++
+	}
+	if strings.HasPrefix(d.Act, "dup") {
+		r += 20
+	}
+	return r
+}
+
 func mustDesc(s string) Desc { d, _ := ParseDesc(s); return d }
 func (c *Coordinator) finish(alphaFull, alphaRed map[string][]string) int {
 	p := c.plan
@@ -792,15 +873,15 @@ func (c *Coordinator) finish(alphaFull, alphaRed map[string][]string) int {
 		"states": c.states, "transitions": c.transitions, "traces_validated_against_impl": c.transitions, "samples": c.samples, "exhaustive": c.exhaustive,
 		"evaluations": c.transitions, "distinct_nontrivial": c.states,
 		"rule": "explicit breadth-first search over server states with the REST request alphabet itself as the transition relation, on the real routers (ServeHTTP on a recorder) around a real replica.Server on disk (replica side) and a real controller.Controller with real *remote.Remote backends over model replica nodes (controller side); seeded with the listed state classes; every request of the alphabet is sent once in every state of every level and then 7 more times in a row (repeat family); a state is distinct/non-trivial when its canonical key (dump of the server object + files / E-B key) is new; states reached by a violating request are not expanded",
-		"states_found_but_not_expanded_quick_tier_representatives_only": c.notExpanded, "expand_all_states": p.ExpandAll, "repeat_family_levels": p.RepeatDepth,
+		"states_found_but_not_expanded_quick_tier_representatives_only": c.notExpanded, "expand_all_states": p.ExpandAll, "expand_all_states_found_up_to_level": p.ExpandAllDepth, "repeat_family_levels": p.RepeatDepth,
 		"depth_completed": c.depthCompleted, "max_depth": p.Depth, "full_alphabet_depth": p.FullDepth, "states_per_level": c.perLevel, "requests_per_level_without_repeats": c.execPerLevel,
 		"alphabet_full": lens(alphaFull), "alphabet_reduced": lens(alphaRed),
 		"requests_per_state_class": c.perClass, "routes": routes, "actions": actions, "body_classes": c.bodyClasses,
 		"repeat_family_runs": c.repeatRuns, "repeat_family_requests": c.repeatRequests, "repeat_family_suppressed_same_signature_as_reported_blocking": c.repSuppressed,
 		"status_codes_observed": statusOut, "probe_requests_answered_as_expected": c.probesOK, "write_read_probes": c.writeProbes, "write_probe_bisections": c.bisections, "write_probe_failed_once_then_served_observation": c.transientWrites,
-		"worker_process_deaths": c.deaths, "instances_built": c.instances, "determinism_class_keys_identical": c.detOK,
+		"worker_process_deaths": c.deaths, "instances_built": c.instances, "determinism_class_keys_identical": c.detOK, "determinism_state_keys_rechecked_on_rebuild": c.keyRechecks,
 		"expectations_demanded": c.expectCount, "observations_ambiguous_not_violations": topN(c.obs, 60), "foreign_oracle_events_not_counted": c.foreign,
-		"violations_listed": vlist, "known_findings_hit": known, "violations_over_report_cap": overCap, "state_classes": classDoc(p),
+		"violations_listed": vlist, "state_classes_violating_on_their_own_not_explored": len(c.broken), "known_findings_hit": known, "violations_over_report_cap": overCap, "state_classes": classDoc(p),
 	}
 	if p.C17 {
 		cov["state_action_status_matrix"] = c.matrix
